@@ -31,13 +31,14 @@ def baseline():
 
 patch = open(os.path.join(seed, "patch.diff")).read()
 assert patch.strip(), "empty patch"
-# state: change applied
-assert run("git -C %s diff --quiet -- distance3d" % wt).returncode != 0, "change is not applied in the worktree"
+# never use `git stash` here: the stash is shared by all worktrees of /repo.  Reset the worktree and (un)apply the patch file.
+run("git -C %s checkout -- distance3d" % wt)
+assert run("git -C %s diff --quiet -- distance3d" % wt).returncode == 0
+rc_without, out_without = demo()
+r = run("git -C %s apply %s/patch.diff" % (wt, seed))
+assert r.returncode == 0, "patch does not apply: " + r.stderr
 rc_with, out_with = demo()
 missing = baseline()
-run("git -C %s stash" % wt)
-rc_without, out_without = demo()
-run("git -C %s stash pop" % wt)
 ok = rc_with != 0 and rc_without == 0 and not missing
 meta = json.load(open(os.path.join(seed, "meta.json")))
 meta["verified_by_us"] = dict(demo_exit_with_change=rc_with, demo_exit_without_change=rc_without, demo_output_with_change=out_with,
